@@ -199,14 +199,20 @@ fn gen(r: &mut StdRng) -> Value {
     let gu = ["decimal", "percent", "millis"][r.gen_range(0..3)];
     let gmul = match gu { "decimal" => 1.0, "percent" => 100.0, _ => 1000.0 };
     let n = r.gen_range(1..=8);
-    let edges: Vec<Value> = (0..n)
-        .map(|_| {
-            let speed: f64 = (r.gen_range(5.0..70.0f64) * 100.0).round() / 100.0;
-            // steep downhill now and then: negative energy (regeneration)
-            let grade: f64 = if r.gen_bool(0.25) { -r.gen_range(0.08..0.2) } else { r.gen_range(-0.05..0.1) };
-            json!({"len": r.gen_range(200..60000), "speed": speed, "grade": ((grade * gmul) * 10000.0f64).round() / 10000.0})
-        })
-        .collect();
+    let mut edges: Vec<Value> = vec![];
+    for i in 0..n {
+        let speed: f64 = (r.gen_range(5.0..70.0f64) * 100.0).round() / 100.0;
+        // steep downhill now and then: negative energy (regeneration)
+        let grade: f64 = if r.gen_bool(0.25) { -r.gen_range(0.08..0.2) } else { r.gen_range(-0.05..0.1) };
+        let mut e = json!({"len": r.gen_range(200..60000), "speed": speed, "grade": ((grade * gmul) * 10000.0f64).round() / 10000.0});
+        // roads repeat their speed / grade class: the same prediction is requested again (cache hits when a cache is configured)
+        if i > 0 && r.gen_bool(0.4) {
+            let j = r.gen_range(0..i);
+            e["speed"] = edges[j]["speed"].clone();
+            e["grade"] = edges[j]["grade"].clone();
+        }
+        edges.push(e);
+    }
     let soc0 = match r.gen_range(0..10) {
         0 => json!(-1.0),
         1 => json!(100.5),
